@@ -48,7 +48,7 @@ def oracle(case, ob):
         tag = f"step {si} {c['op']}"
         b, a = o["before"], o["after"]
         nb = len(b["arrs"])
-        if c["op"] not in INPLACE and not (c["op"] == "cumsum" and c.get("inplace")):
+        if c["op"] not in INPLACE and not (c["op"] in ("cumsum", "un") and c.get("inplace")):
             for ai in range(nb):
                 if not _same(b["arrs"][ai], a["arrs"][ai]):
                     return f"{tag}: input array #{ai} was modified by a non-in-place operation"
